@@ -616,9 +616,16 @@ def coq_stat_check(desc, W, k, sf, mode, polarised, span_normalise, wins, values
             # the Gallina port of the C running-sum sweep on the same tables / indexes
             t += (" && check_incremental (branch_incremental %d%%nat (polar %d%%nat (sf_eval %s) %s %s) %s %s %s %s) %s %s %s" % (
                 k, k, sf, coq_W(W), pol, coq_times(desc), coq_W(W), coq_edges(tab, desc["L"]), ws, nrm, ws, exp))
-            # hypothesis of theorem branch_incremental_window_accounting: the visited trees tile [0,L)
-            t += " && trace_tiles_b (branch_trace %d%%nat (polar %d%%nat (sf_eval %s) %s %s) %s %s %s) 0 %s" % (
-                k, k, sf, coq_W(W), pol, coq_times(desc), coq_W(W), coq_edges(tab, desc["L"]), cq(desc["L"]))
+            # hypotheses of theorem branch_incremental_equals_branch_stat, evaluated on this run:
+            # visited trees tile [0,L) and are the table's marginal forests, every edge
+            # operation of the sweep is valid, the weight table is well-formed
+            Fq = "(polar %d%%nat (sf_eval %s) %s %s)" % (k, sf, coq_W(W), pol)
+            tr = "(branch_trace %d%%nat %s %s %s %s)" % (k, Fq, coq_times(desc), coq_W(W), coq_edges(tab, desc["L"]))
+            nn = len(desc["nodes"])
+            t += " && trace_tiles_b %s 0 %s && trace_segs_b %s %s" % (tr, cq(desc["L"]), tr, coq_segs(desc))
+            t += " && wok_b %d%%nat %d%%nat %s" % (k, nn, coq_W(W))
+            t += (" && sweep_ok %s %s %d%%nat %d%%nat %s 0%%Z 0%%Z 0 (init_state %d%%nat %s %d%%nat %s)" % (
+                Fq, coq_times(desc), nn, 2 * len(tab["edges"]) + 2, coq_edges(tab, desc["L"]), k, Fq, nn, coq_W(W)))
         return t
     return "check_windows_nodes (fun u => node_stat %d%%nat (sf_eval %s) %s %s %s u) %d%%nat %s %s %s" % (
         k, sf, coq_W(W), pol, coq_segs(desc), len(desc["nodes"]), nrm, ws, exp)
